@@ -509,7 +509,7 @@ func (in *Interp) deepEq(a, b Value) *Term {
 		if x.Blob != nil || y.Blob != nil {
 			return in.blobEq(x, y)
 		}
-		if (x.A == nil) != (y.A == nil) {
+		if (x.A == nil) != (y.A == nil) && !(in.looseEq && len(x.A) == 0 && len(y.A) == 0) {
 			return ts.False() // DeepEqual distinguishes nil and empty
 		}
 		if len(x.A) != len(y.A) {
@@ -558,6 +558,9 @@ func (in *Interp) deepEq(a, b Value) *Term {
 			return ts.False()
 		}
 		if x == nil || y == nil {
+			if in.looseEq {
+				return ts.Bool((x == nil || len(x.Entries) == 0) && (y == nil || len(y.Entries) == 0))
+			}
 			return ts.Bool(x == y)
 		}
 		if len(x.Entries) != len(y.Entries) {
